@@ -84,4 +84,20 @@ out += ["Lemma exec_keeps_ir u m i cpu : writes_ir i = false -> g_IR (exec u m i
         "Lemma exec_idxcb_keeps_ir u m dd i cpu : g_IR (exec_idxcb u m dd i cpu) = g_IR cpu.",
         "Proof. destruct m; all_cases i; try rename b into b_; open_cpu cpu; spec_norm; first [ syn_refl | solve [split_ifs; syn_refl] ]. Qed."]
 wr('SpecAllIR.v', out)
+out, names = gen('exec_erase', lambda t: "erase (exec u m %s (erase cpu)) = erase (exec u m %s cpu)" % (t, t), "destruct m; ",
+                 "(unfold erase; spec_norm); close_case.", extra_params="(m : mode)")
+out += ["Lemma exec_erase u m i cpu : erase (exec u m i (erase cpu)) = erase (exec u m i cpu).",
+        "Proof. destruct i; [ " + " | ".join("apply %s" % n for n in names) + " ]. Qed.",
+        "Lemma exec_idxcb_erase u m dd i cpu : erase (exec_idxcb u m dd i (erase cpu)) = erase (exec_idxcb u m dd i cpu).",
+        "Proof. destruct m; all_cases i; try rename b into b_; open_cpu cpu; (unfold erase; spec_norm); close_case. Qed."]
+wr('SpecAllErase.v', out)
+
+PAN = "mem_safe (g_Memory cpu) -> npanics (trace (g_W (exec u m %s cpu))) = npanics (trace (g_W cpu))"
+out, names = gen('exec_nopanic', lambda t: PAN % t, "destruct m; ",
+                 "intros Hs; unfold mem_safe in Hs; cbv_struct_in Hs; spec_norm; first [ panic_close Hs | split_ifs; panic_close Hs ].", extra_params="(m : mode)")
+out += ["Lemma exec_no_panic u m i cpu : " + PAN % "i" + ".",
+        "Proof. destruct i; [ " + " | ".join("apply %s" % n for n in names) + " ]. Qed.",
+        "Lemma exec_idxcb_no_panic u m dd i cpu : mem_safe (g_Memory cpu) -> npanics (trace (g_W (exec_idxcb u m dd i cpu))) = npanics (trace (g_W cpu)).",
+        "Proof. destruct m; all_cases i; try rename b into b_; open_cpu cpu; intros Hs; unfold mem_safe in Hs; cbv_struct_in Hs; spec_norm; first [ panic_close Hs | split_ifs; panic_close Hs ]. Qed."]
+wr('SpecAllPanic.v', out)
 print("constructors:", len(ctors))
